@@ -1,6 +1,6 @@
 (* Facts about the regenerated candidate endpoints that tie Model/CalTrackFit.v to the feature processors
    (property C18, extension). Finite, re-established by computation on every run. *)
-From Coq Require Import ZArith QArith List Bool String.
+From Coq Require Import ZArith QArith List Bool String PrimFloat.
 From V Require Import Generated.CalTrackTables Model.CalTrack Model.CalTrackFit Proofs.CalTrackProofs Proofs.CalTrackFitProofs.
 Import ListNotations.
 
@@ -24,3 +24,22 @@ Lemma fitted_endpoints_min_count_l : forall temps minc,
 Proof.
   intros temps minc. cbv zeta. rewrite fitted_endpoints_l. unfold fit_temperature_bins_list. apply fit_bins_min_count.
 Qed.
+
+(* the binary64 evaluation of the occupancy rule (what the correspondence executes) and the exact rule (what the theorems
+   are about) give the same flag at the default threshold, for every count of residuals up to 400 per hour of week *)
+Definition agree_upto (bound : nat) : bool :=
+  forallb (fun n => forallb (fun p => Bool.eqb (flag_f default_occupancy_threshold_f p n) (flag_q default_occupancy_threshold p n))
+                            (seq 0 (S n))) (seq 0 (S bound)).
+Lemma occupancy_float_rule_agrees_l : forall n p, (n <= 400)%nat -> (p <= n)%nat ->
+  flag_f default_occupancy_threshold_f p n = flag_q default_occupancy_threshold p n.
+Proof.
+  assert (H : agree_upto 400 = true) by (vm_compute; reflexivity).
+  intros n p Hn Hp. unfold agree_upto in H. rewrite forallb_forall in H.
+  assert (In n (seq 0 401)) as Hin by (apply in_seq; split; [ apply Nat.le_0_l | apply le_n_S; exact Hn ]).
+  specialize (H n Hin). rewrite forallb_forall in H.
+  assert (In p (seq 0 (S n))) as Hip by (apply in_seq; split; [ apply Nat.le_0_l | apply le_n_S; exact Hp ]).
+  specialize (H p Hip). apply eqb_prop in H. exact H.
+Qed.
+
+Lemma default_threshold_same_l : Q2F default_occupancy_threshold = default_occupancy_threshold_f.
+Proof. vm_compute. reflexivity. Qed.
